@@ -78,6 +78,10 @@ def generate(seed, tier, k):
         doc["items"].append(it2)
         if r.random() < 0.5:
             doc["items"].reverse()
+    if not mixed and gen.kpick(seed, "nearly-incompressible-item", 5) == 0:
+        # a rubber part: the condensed nearly-incompressible body (its own mass assembly) as first item
+        it0 = doc["items"][0]
+        doc["items"][0] = {"type": "SolidBodyNearlyIncompressible", "umat": {"name": "NeoHooke", "p": {"mu": round(E / 3, 4)}}, "bulk": round(E * 8, 4), "density": it0["density"]}
     bc = r.choice(["none", "none", "clamp", "clamp", "partial", "points"])
     if bc == "none":
         doc["bc"] = {"case": "none"}
